@@ -167,8 +167,10 @@ pub fn leaf_boundaries(text: &str, lo: usize, hi: usize) -> Vec<usize> {
 
 pub struct GapOpts {
     pub seed: u64,
-    /// keep fraction num/denom of single-gap elements
+    /// keep fraction num/denom of single-gap elements, chosen by the seed among `single_fixed`
     pub single: (u64, u64),
+    /// the fixed, seed-independent slice of all single placements that belongs to the universe
+    pub single_fixed: (u64, u64),
     /// keep fraction num/denom of pair elements (0 disables), chosen by the seed among `pair_fixed`
     pub pair: (u64, u64),
     /// the fixed, seed-independent slice of all pairs that belongs to the universe
@@ -231,7 +233,7 @@ pub fn gap(defs: &Defs, o: &GapOpts) -> (Vec<Elem>, BTreeMap<String, u64>) {
             for (gi, off) in offs.iter().enumerate() {
                 for t in &trivia {
                     let id = format!("gap:{}:{}:g{}:{}", s.id, c.name, gi, t.id);
-                    if !pick(o.seed, &id, o.single.0, o.single.1) {
+                    if !pick(0x5eed_f1ed, &id, o.single_fixed.0, o.single_fixed.1) || !pick(o.seed, &id, o.single.0, o.single.1) {
                         continue;
                     }
                     let text = format!("{}{}{}", &full[..*off], t.text, &full[*off..]);
